@@ -21,7 +21,7 @@ def sh(cmd, timeout=3600, env=None):
     if env:
         e.update(env)
     os.makedirs("/tmp/confirm_cwd", exist_ok=True)  # demos may drop files into the current directory
-    p = subprocess.run(cmd, shell=True, capture_output=True, text=True, timeout=timeout, env=e, cwd="/tmp/confirm_cwd")
+    p = subprocess.run(cmd, shell=True, capture_output=True, text=True, errors="replace", timeout=timeout, env=e, cwd="/tmp/confirm_cwd")
     return p.returncode, (p.stdout + p.stderr)
 
 
